@@ -9,6 +9,7 @@ import (
 	"strings"
 
 	"golang.org/x/tools/go/cfg"
+	"golang.org/x/tools/go/packages"
 )
 
 // ---- RQ: newline accounting in parser/lexer.go (C12, C13) --------------------------------------
@@ -649,4 +650,150 @@ func rq3ByteDistances(w *World) {
 		})
 	}
 	w.floor("position computations in parser/lexer.go", n, 2)
+}
+
+// rq6TypedNilAccessors (RQ6, C12): an accessor in package ast that returns a nilable pointer
+// field through an interface-typed result must test the field first; otherwise the caller gets a
+// non-nil interface holding a nil pointer and its next method call panics.
+func rq6TypedNilAccessors(w *World) {
+	w.rule("RQ6")
+	pp := w.pkg("parser")
+	ap := w.pkg("ast")
+	if pp == nil || ap == nil {
+		return
+	}
+	nilable := nilableASTFields(w, pp, ap)
+	info := ap.TypesInfo
+	n := 0
+	for _, b := range allFuncBodies(ap) {
+		if b.Lit != nil || b.Decl.Recv == nil {
+			continue
+		}
+		res := b.Obj.Type().(*types.Signature).Results()
+		if res.Len() != 1 {
+			continue
+		}
+		if _, isIface := res.At(0).Type().Underlying().(*types.Interface); !isIface {
+			continue
+		}
+		g := buildCFG(info, b.Body)
+		d := &Dataflow{G: g, Must: true, Init: Facts{}, Transfer: func(n ast.Node, in Facts) Facts { return in }}
+		d.Branch = func(leaf ast.Expr, truth bool, s Facts) Facts {
+			if be, ok := leaf.(*ast.BinaryExpr); ok && (be.Op == token.NEQ || be.Op == token.EQL) && isNilIdent(info, be.Y) {
+				if (be.Op == token.NEQ) == truth {
+					return s.with("nonnil:" + render(be.X))
+				}
+			}
+			return s
+		}
+		d.Run()
+		d.Walk(func(_ *cfg.Block, nd ast.Node, before Facts) {
+			r, ok := nd.(*ast.ReturnStmt)
+			if !ok || len(r.Results) != 1 {
+				return
+			}
+			fld := selField(info, r.Results[0])
+			if fld == nil {
+				return
+			}
+			if _, isPtr := fld.Type().Underlying().(*types.Pointer); !isPtr {
+				return
+			}
+			if _, isNilable := nilable[fld]; !isNilable {
+				return
+			}
+			n++
+			key := "typed-nil|" + b.Label + "|" + render(r.Results[0])
+			if before["nonnil:"+render(r.Results[0])] {
+				w.ok(key, r.Pos(), "the nilable pointer field is returned as an interface only after a nil test")
+			} else {
+				w.violation(key, r.Pos(), fmt.Sprintf("%s returns %s, a pointer field the error-tolerant grammar may leave nil, as the interface %s without testing it: callers receive a non-nil interface wrapping a nil pointer and panic on the next method call (e.g. when reporting a position)", b.Label, render(r.Results[0]), res.At(0).Type().String()))
+			}
+		})
+	}
+	w.floor("interface-returning accessors of nilable AST pointer fields", n, 1)
+}
+
+// nilableASTFields: AST struct fields initialised from constructor parameters that receive a literal
+// nil somewhere in the compiled grammar actions.
+func nilableASTFields(w *World, pp, ap *packages.Package) map[*types.Var]token.Pos {
+	type ctor struct{ fields map[int][]*types.Var }
+	ctors := map[*types.Func]*ctor{}
+	for _, b := range allFuncBodies(ap) {
+		if b.Lit != nil || b.Decl.Recv != nil || !strings.HasPrefix(b.Obj.Name(), "New") {
+			continue
+		}
+		params := map[types.Object]int{}
+		i := 0
+		for _, fl := range b.Decl.Type.Params.List {
+			for _, nm := range fl.Names {
+				params[ap.TypesInfo.Defs[nm]] = i
+				i++
+			}
+		}
+		c := &ctor{fields: map[int][]*types.Var{}}
+		ast.Inspect(b.Body, func(x ast.Node) bool {
+			cl, ok := x.(*ast.CompositeLit)
+			if !ok {
+				return true
+			}
+			tv, ok := ap.TypesInfo.Types[cl]
+			if !ok {
+				return true
+			}
+			st, ok := tv.Type.Underlying().(*types.Struct)
+			if !ok {
+				return true
+			}
+			for _, el := range cl.Elts {
+				kv, ok := el.(*ast.KeyValueExpr)
+				if !ok {
+					continue
+				}
+				id, ok := ast.Unparen(kv.Value).(*ast.Ident)
+				if !ok {
+					continue
+				}
+				if pi, isParam := params[ap.TypesInfo.Uses[id]]; isParam {
+					for j := 0; j < st.NumFields(); j++ {
+						if st.Field(j).Name() == render(kv.Key) {
+							c.fields[pi] = append(c.fields[pi], st.Field(j))
+						}
+					}
+				}
+			}
+			return true
+		})
+		if len(c.fields) > 0 {
+			ctors[b.Obj] = c
+		}
+	}
+	nilable := map[*types.Var]token.Pos{}
+	for _, f := range pp.Syntax {
+		fn := w.Fset.Position(f.Pos()).Filename
+		if !strings.HasSuffix(fn, "proto.y.go") && !strings.HasSuffix(fn, "/ast.go") {
+			continue
+		}
+		ast.Inspect(f, func(x ast.Node) bool {
+			c, ok := x.(*ast.CallExpr)
+			if !ok {
+				return true
+			}
+			ct := ctors[callee(pp.TypesInfo, c)]
+			if ct == nil {
+				return true
+			}
+			for i, a := range c.Args {
+				if isNilIdent(pp.TypesInfo, a) {
+					for _, fld := range ct.fields[i] {
+						if _, seen := nilable[fld]; !seen {
+							nilable[fld] = a.Pos()
+						}
+					}
+				}
+			}
+			return true
+		})
+	}
+	return nilable
 }
